@@ -182,6 +182,18 @@ class AsyncIOClient(ABC):
                         return
                     
                     await self._connect_impl()            
+
+                    # Cancel any existing receive loop task. This is done before CONNECTED is reported: the
+                    # old loop still reads the previous link, and when that read fails while the status
+                    # callback is running it would report DISCONNECTED on top of the new connection.
+                    if self._receive_task and not self._receive_task.done():
+                        self.logger.info("Going to cancel existing receive task")
+                        self._receive_task.cancel()
+                        try:
+                            await asyncio.sleep(0.01)  # Allow cancellation to propagate
+                        except asyncio.CancelledError:
+                            raise AssertionError("Super strange. not expected at all")
+
                     if self._state == State.CLOSED:
                         # close() was called while the transport was being opened: shut the new link and give up
                         self.logger.info("Object terminated while connecting. Closing the new connection.")
@@ -190,15 +202,6 @@ class AsyncIOClient(ABC):
                         return
                     await self._update_state(State.CONNECTED)
                     self.logger.info("Connected to the gateway.")
-    
-                    # Cancel any existing receive loop task
-                    if self._receive_task and not self._receive_task.done():
-                        self.logger.info("Going to cancel existing receive task")
-                        self._receive_task.cancel()
-                        try:
-                            await asyncio.sleep(0.01)  # Allow cancellation to propagate
-                        except asyncio.CancelledError:
-                            raise AssertionError("Super strange. not expected at all")
     
                     self.logger.info("Starting receive loop task")
                     # Start a new receive loop task
